@@ -14,7 +14,11 @@ RULE = ('Hypothesis-generated accepted programs (sequential and time-travel feat
         'out_of_bounds, nonlocal_preempt, the unchecked build must produce the identical committed event stream and end '
         'state. Non-trivial: the checked run executed (on its committed path, observed by a replay monitor on code labels) '
         'at least 3 distinct kinds of guard among function-entry, index, division, dynamic-length, allocation-overflow and '
-        'return protection. Distinct by hash of (source, argv, word size).')
+        'return protection. Distinct by hash of (source, argv, word size). Plus four enumerated grid shards (word sizes 2,3,4,8): '
+        'one program per boundary literal L (about 35 per word size: small values, powers of two, 2**(8w-1) and 2**(8w) with '
+        'neighbours, both signs) applying + - * / % (skipped when L is 0 in the word), the six comparisons and the compound '
+        'forms to a parameter, a global, an array element and a byte, in both operand orders, for 17 boundary operand '
+        'values; same oracle; each fault-free grid program counts as non-trivial.')
 ASSUMPTIONS = ['verification Sphinx VM (svm); machine-level faults in the unchecked build are reported as differences only if the checked run was fault-free']
 MIN_NONTRIVIAL = 100
 FAULT_FLAGS = {'stack_overflow', 'division_by_zero', 'out_of_bounds', 'nonlocal_preempt'}
